@@ -284,7 +284,8 @@ class ProxyClient:
             try:
                 cbfunc(*args)
             except UnregisterCallback:
-                cblist.remove(cbfunc)
+                if cbfunc in cblist:  # might have been unregistered by an other callback in between
+                    cblist.remove(cbfunc)
             except Exception as e:
                 if cbname != 'handleError':
                     try:
